@@ -564,6 +564,15 @@ Section Prims.
                 end
       | _ => stuck f s
       end
+    else if is "eq" then
+      (* core::ptr::eq(self.buf.as_ptr(), DEFAULT_U8): is the handle the shared sentinel? *)
+      match args with
+      | [x; y] => match ctor_is "BufPtr" x, ctor_is "DEFAULT_U8" y with
+                  | Some [VObj v], Some [] => lift_k (is_default v) VBool s k
+                  | _, _ => stuck f s
+                  end
+      | _ => stuck f s
+      end
     else if is ".as_mut" then
       (* NonNull<MiniVec<T>>::as_mut: the vector the Drain borrows *)
       match args with [VObj v] => k (VObj v) s | _ => stuck f s end
